@@ -14,23 +14,27 @@ Inductive case :=
 
 Definition llz_eqb := list_eqb zlist_eqb.
 
-(* the modelled domain: three variables, four names; a for-in whose body deletes
+(* the modelled domain: three variables plus Object.prototype, four names; a for-in whose body deletes
    is only judged where 12.6.4 is unambiguous (the deleted name occurs on at most
    one object of the enumerated chain) *)
+(* variables 0..2 can be re-bound, frozen, sealed; variable 3 is Object.prototype: properties may be
+   defined, assigned, deleted on it and objects created from it, but it stays extensible (its
+   built-in members are not modelled, so isSealed/isFrozen of it would not be either) *)
 Definition slot_ok (i : nat) : bool := Nat.ltb i 3.
+Definition slot4_ok (i : nat) : bool := Nat.ltb i 4.
 Definition name_ok (n : Z) : bool := (0 <=? n) && (n <? 4).
 Definition entries_ok (l : list (Z * rdesc)) : bool :=
   forallb (fun e => name_ok (fst e)) l && negb (has_dup (map fst l)).
 
 Definition op_ok (s : state) (o : op) : bool :=
   match o with
-  | ODefine i n _ => slot_ok i && name_ok n
-  | ODefines i l => slot_ok i && entries_ok l
-  | OCreate i p l => slot_ok i && match p with Some j => slot_ok j | None => true end && entries_ok (odef l [])
-  | OPut i n _ | ODelete i n => slot_ok i && name_ok n
+  | ODefine i n _ => slot4_ok i && name_ok n
+  | ODefines i l => slot4_ok i && entries_ok l
+  | OCreate i p l => slot_ok i && match p with Some j => slot4_ok j | None => true end && entries_ok (odef l [])
+  | OPut i n _ | ODelete i n => slot4_ok i && name_ok n
   | OFreeze i | OSeal i | OPrevent i => slot_ok i
   | OForInDel i at_n i2 del_n =>
-      slot_ok i && slot_ok i2 && name_ok at_n && name_ok del_n &&
+      slot4_ok i && slot4_ok i2 && name_ok at_n && name_ok del_n &&
       let h := s_heap s in
       (length (filter (fun b => match lookup (o_props (nth b h empty_obj)) del_n with Some _ => true | None => false end)
                       (chain_of (length h) h (var s i))) <=? 1)%nat
